@@ -644,20 +644,20 @@ Section Par2.
   Fixpoint split_by {A} (lens : list nat) (l : list A) : list (list A) :=
     match lens with [] => [] | n :: r => firstn n l :: split_by r (skipn n l) end.
 
-  Definition repair_core (ds : dstate) (dbl : bool) : outcome (list bytes) :=
-    let shards := map (fun so => match so with Some s => Some (si_data s) | None => None end) (flat_map fi_shards (ds_fis ds)) in
+  (* reconstruct the missing slices (bytes) from the found ones and the parity table *)
+  Definition repair_shards (shards : list (option bytes)) (parity : list (option bytes)) (dbl : bool) : outcome (list bytes) :=
     let missing := count_nones shards in
-    match ds_parity ds with
+    match parity with
     | [] => if Nat.eqb missing 0 then Ok (somes shards) else Err ENotEnoughParity
     | _ =>
       let nd := length shards in
-      let np := length (ds_parity ds) in
+      let np := length parity in
       if Nat.eqb nd 0 then Panic PExplicit
       else if (32768 <? N.of_nat nd) then Err EOther
       else if (65535 <? N.of_nat np) then Err EOther
       else
         let c := {| c_data := nd; c_parity := np; c_pm := vandermonde_pm nd np |} in
-        let pw := map (fun o => match o with Some b => Some (le_words b) | None => None end) (ds_parity ds) in
+        let pw := map (fun o => match o with Some b => Some (le_words b) | None => None end) parity in
         do rw <- reconstruct c (map (fun o => match o with Some b => Some (le_words b) | None => None end) shards) pw;
         if dbl && negb (forallb (fun gp : list N * option (list N) =>
                                    match snd gp with Some given => bytes_eqb (fst gp) given | None => true end)
@@ -665,6 +665,10 @@ Section Par2.
         then Err EOther
         else Ok (map le_bytes rw)
     end.
+
+  Definition repair_core (ds : dstate) (dbl : bool) : outcome (list bytes) :=
+    repair_shards (map (fun so => match so with Some s => Some (si_data s) | None => None end) (flat_map fi_shards (ds_fis ds)))
+                  (ds_parity ds) dbl.
 
   Definition par2_repair (indexPath : list N) (dbl : bool) (st : io) : (outcome unit * list (list N)) * io :=
     match load_all indexPath st with
